@@ -1,29 +1,66 @@
 //! simharness: runs the real PgCat `main()` inside the deterministic simulator.
+//!
+//! Parent mode (`simharness check <Cxx> <quick|thorough>`, `replay <file>`, `selftest`,
+//! `gen <Cxx> <tier> <idx>`): generates specs, runs each one in a fresh child process, and
+//! aggregates. Child mode (env SIMH_CHILD=1, spec JSON on stdin, no argv so that PgCat's own
+//! clap parser sees none): one spec -> one execution -> one verdict.
 #![allow(unexpected_cfgs)]
 #![allow(dead_code)]
+#![allow(clippy::too_many_arguments)]
 
 #[allow(unused_imports, clippy::all)]
 #[path = "/repo/src/main.rs"]
 mod pgcat_main;
 
 mod entropy;
+mod gen;
+mod mockpg;
+mod oracles;
+mod parent;
+mod pgcat_api;
+mod pgsession;
+mod proto;
+mod runner;
+mod sclient;
+mod spec;
+mod sqlmini;
+mod world;
 
 fn main() {
-    let seed: u64 = std::env::var("SIMH_SEED").ok().and_then(|s| s.parse().ok()).unwrap_or(1);
-    entropy::seed(seed);
-    simcore::rt::init(seed);
-    std::env::set_var("CONFIG_FILE", "/sim/pgcat.toml");
-    std::env::set_var("LOG_LEVEL", "error");
-    simcore::fs::set("/sim/pgcat.toml", simcore::fs::Content::Data(b"[general]\nhost=\"0.0.0.0\"\nport=6432\nadmin_username=\"admin\"\nadmin_password=\"admin\"\nworker_threads=1\n[pools.db]\n[pools.db.users.0]\nusername=\"u\"\npassword=\"p\"\npool_size=2\n[pools.db.shards.0]\ndatabase=\"db\"\nservers=[[\"pg0\",5432,\"primary\"]]\n".to_vec()));
-    simcore::rt::set_world_start(Box::new(|| {
-        tokio::spawn(async {
-            simcore::net::world::wait_pgcat_listening().await;
-            println!("listening at t={}us seq={}", simcore::clock::now_us(), simcore::log::current_seq());
-            tokio::time::sleep(std::time::Duration::from_secs(120)).await;
-            println!("t={}us digest={:x}", simcore::clock::now_us(), simcore::log::digest());
-            std::process::exit(0);
-        });
-    }));
-    let r = pgcat_main::verif_main();
-    println!("main returned {:?}", r.is_ok());
+    if std::env::var("SIMH_CHILD").is_ok() {
+        runner::child_main();
+    }
+    let args: Vec<String> = std::env::args().collect();
+    let cmd = args.get(1).map(|s| s.as_str()).unwrap_or("help");
+    let code = match cmd {
+        "check" => {
+            let prop = args.get(2).cloned().unwrap_or_default();
+            let tier = std::env::var("VERIF_TIER").ok().filter(|t| !t.is_empty()).or_else(|| args.get(3).cloned()).unwrap_or_else(|| "quick".into());
+            let tier = args.get(3).cloned().unwrap_or(tier);
+            parent::check(&prop, &tier)
+        }
+        "replay" => {
+            let path = args.get(2).cloned().unwrap_or_default();
+            parent::replay(&path, args.iter().any(|a| a == "--trace"))
+        }
+        "selftest" => {
+            let n: u64 = args.get(2).and_then(|s| s.parse().ok()).unwrap_or(400);
+            let w: usize = args.get(3).and_then(|s| s.parse().ok()).unwrap_or(16);
+            parent::selftest(n, w)
+        }
+        "gen" => {
+            let prop = args.get(2).cloned().unwrap_or_default();
+            let tier = args.get(3).cloned().unwrap_or_else(|| "quick".into());
+            let idx: u64 = args.get(4).and_then(|s| s.parse().ok()).unwrap_or(0);
+            let seed: u64 = std::env::var("VERIF_SEED").ok().and_then(|s| s.parse().ok()).unwrap_or(parent::DEFAULT_SEED);
+            let spec = gen::generate(&prop, &tier, seed, idx);
+            println!("{}", serde_json::to_string_pretty(&spec).unwrap());
+            0
+        }
+        _ => {
+            eprintln!("usage: simharness check <Cxx> <quick|thorough> | replay <file> [--trace] | selftest [n] [workers] | gen <Cxx> <tier> <idx>");
+            2
+        }
+    };
+    std::process::exit(code);
 }
